@@ -111,7 +111,7 @@ def _has_fvar(k):
     return _HAS_FVAR[k]
 
 
-def _pick_font(r):
+def _pick_font(r, info=None):
     keys = corpus.all_gen2_keys()
     if r.random() < 0.2:
         # bias a fifth of the runs towards variable fonts (instancing as an EDIT)
@@ -124,7 +124,10 @@ def _pick_font(r):
         # as many histories as the ubiquitous ones
         bt = corpus.keys_by_tag()
         if bt:
-            return r.choice(bt[r.choice(sorted(bt))])
+            tag = r.choice(sorted(bt))
+            if info is not None:
+                info["bytag"] = tag
+            return r.choice(bt[tag])
     # binaries and TTX-derived fonts with equal weight per file
     for _ in range(40):
         k = r.choice(keys)
@@ -193,7 +196,8 @@ def generate(ctx, batch, idx):
         from props import c16_pipes
 
         return c16_pipes.generate(ctx, r, idx, build_only=(batch == "pipeb"))
-    key = _pick_font(r)
+    info = {}
+    key = _pick_font(r, info)
     if key is None:
         return None
     if batch in ("hist", "hist_fail", "hist_ensure"):
@@ -210,7 +214,7 @@ def generate(ctx, batch, idx):
             "tz": r.choice([None, "UTC", "JST-9", "EST5EDT", "Asia/Tokyo", "America/Los_Angeles"]),
             "lang": r.choice([None, "C", "tr_TR.UTF-8", "de_DE.ISO-8859-1"]),
             "pre_ensure": batch == "hist_ensure",
-            "xmlcheck": r.random() < 0.3,
+            "xmlcheck": r.random() < 0.5,
         }
         n = r.randint(1, 12)
         ops = [_gen_op(r, batch, has_fvar) for _ in range(n)]
@@ -221,6 +225,19 @@ def generate(ctx, batch, idx):
                 seen += 1
                 if seen > 2:
                     op[0] = "rev"
+        if info.get("bytag"):
+            # a font chosen for a rare table kind: most of these histories contain a whole-font
+            # transformation (where table-specific code runs) and compare the dump across the save
+            if seen == 0 and r.random() < 0.7:
+                name = r.choice([b for b in BIG_EDITS if b != "instantiate" or has_fvar])
+                a = {"k": r.randrange(1 << 16), "seed": r.randrange(1 << 30)}
+                if name == "scale":
+                    a["upem"] = r.choice([500, 1000, 1024, 2048])
+                if name == "instantiate":
+                    a["inplace"] = r.random() < 0.5
+                ops.insert(r.randrange(len(ops) + 1), [name, a])
+            if r.random() < 0.8:
+                knobs["xmlcheck"] = True
         ops.append(["save", dict(_gen_save(r, allow_flavor=False), final=True)])
         return {"kind": "hist", "batch": batch, "font": key, "knobs": knobs, "ops": ops, "n_checked": r.choice([1, 2, 3])}
     if batch == "second_save":
